@@ -2,6 +2,10 @@ import Qryn.LogQL.Process
 import Qryn.Proofs.LogQLPlan
 import Qryn.Gen.PlannerGlobals
 import Qryn.Gen.PlannerSelfWrites
+import Qryn.Proofs.ProcessTraceQL
+import Qryn.Proofs.ProcessMetric
+import Qryn.LogQL.ProcessFormat
+import Qryn.LogQL.SemMetric
 /-! # C14 — query translation is deterministic and a prepared plan can be re-executed -/
 namespace Qryn.C14
 open Qryn Qryn.Sql Qryn.LogQL
@@ -86,42 +90,328 @@ theorem planner_globals_immutable :
 end Qryn.C14
 
 namespace Qryn.C14
-/-- **planner_self_writes_pinned.** Executing a prepared plan (`Process`, once per second while tailing) may write to
-    the planner objects themselves only at the sites of this regenerated inventory (`Gen.PlannerSelfWrites`: every
-    assignment, `++`, `delete`, address-taking or `range`-assignment whose target is a field of the receiver, inside
-    `Process` or a method of the same receiver reachable from it, for all 99 planner types of the LogQL, TraceQL,
-    PromQL and Pyroscope translation packages). Each listed site was reviewed and is of one of two harmless kinds:
-    (a) the memo pointers `LabelsCache`/`WithCache`, which point into `planner.fpCache`/`labelsCache` and are reset at
-    the start of every execution by `cacheResetPlanner` — this is the state machine `LogQL.Process` models
-    (`process_stable`); (b) values recomputed from immutable configuration before every use
-    (`LineFormatPlanner.formatStr/args` reset in `ProcessTpl`, `LabelFormatPlanner.formatters`, `MainFinalizerPlanner.Alias`
-    default, in-process `labels`/`re`/`logfmtFields`/`parameterTypedValues`, TraceQL `fCmpVal`, `alias`, `isAliased`,
-    `sqlConds`, `where` — all assigned before they are read in the same call). A planner that starts to keep anything
-    else across executions (as `LabelFilterPlanner.MainReq`, the line-filter and `AttrConditionPlanner` accumulators
-    did before their fixes) changes the inventory and fails this obligation; the re-execution streams then search for
-    a query on which the second execution differs. -/
+/-- `MainFinalizerPlanner.Process`: `if m.Alias == "" { m.Alias = "prefinal" }` — the exported configuration field -/
+def finalizerAlias (a : String) : String := if a = "" then "prefinal" else a
+
+/-- the default is idempotent and `plan()` builds the finalizer with `Alias = ""`: every execution uses `prefinal`
+    (the name the models `planLog` / `finalizeMatrix` write) -/
+theorem finalizer_alias_default : finalizerAlias "" = "prefinal" ∧ ∀ a, finalizerAlias (finalizerAlias a) = finalizerAlias a := by
+  refine ⟨rfl, fun a => ?_⟩
+  unfold finalizerAlias
+  by_cases h : a = ""
+  · simp [h]
+  · simp [h]
+end Qryn.C14
+
+namespace Qryn.C14
+open Lean in
+/-- how a field a planner object writes on itself during `Process` is kept from carrying anything to the next
+    execution -/
+inductive SelfWriteClass
+  /-- a `**sql.With` pointing at `planner.fpCache` / `planner.labelsCache`: memo of the current execution, cleared by
+      `cacheResetPlanner` at the start of every `Process` (`process_stable`, `process_stable_metric`) -/
+  | memoReset
+  /-- assigned during the same `Process` before anything reads it (`processTpl_state_independent`,
+      `attr_condition_state_independent`, `aggregator_state_independent`; the in-process planners build their lookup
+      tables from immutable fields in the first lines of `Process`) -/
+  | scratch
+  /-- read before it is assigned, and reset on every return path that produced a statement: the invariant between two
+      executions (`attr_condition_resets_flag`, `traceql_process_invariant`) -/
+  | flagResetOnExit
+  /-- an exported configuration field given its default on first use; idempotent (`finalizer_alias_default`) -/
+  | configDefault
+  /-- a memo of values derived from immutable configuration only, filled once; the type is not constructed by this
+      build (`Gen.plannerSelfWriteUnconstructed`) -/
+  | memoConfig
+deriving DecidableEq, Repr
+
+/-- one site of `Gen.plannerSelfWrites`, its class, and the field of the executable models that stands for it
+    (names checked by the elaborator; `none`: modelled as a pure function elsewhere — C09's in-process engine — or
+    not constructed by this build) -/
+structure SelfWrite where
+  site : String
+  cls : SelfWriteClass
+  modelField : Option Lean.Name
+
+def selfWriteClass : List SelfWrite :=
+  let cp := "reader/logql/logql_transpiler_v2/clickhouse_planner."
+  let ip := "reader/logql/logql_transpiler_v2/internal_planner."
+  let tq := "reader/traceql/transpiler/clickhouse_transpiler."
+  [⟨cp ++ "ByWithoutPlanner.processTSTable:LabelsCache", .memoReset, some ``Qryn.LogQL.MPlanState.labelsCache⟩,
+   ⟨cp ++ "LabelFormatPlanner.makeFormatters:formatters", .memoConfig, none⟩,
+   ⟨cp ++ "LabelsJoinPlanner.Process:LabelsCache", .memoReset, some ``Qryn.LogQL.MPlanState.labelsCache⟩,
+   ⟨cp ++ "LineFormatPlanner.ProcessTpl:args", .scratch, some ``Qryn.LogQL.FmtState.args⟩,
+   ⟨cp ++ "LineFormatPlanner.ProcessTpl:formatStr", .scratch, some ``Qryn.LogQL.FmtState.formatStr⟩,
+   ⟨cp ++ "LineFormatPlanner.fieldNode:args", .scratch, some ``Qryn.LogQL.FmtState.args⟩,
+   ⟨cp ++ "LineFormatPlanner.fieldNode:formatStr", .scratch, some ``Qryn.LogQL.FmtState.formatStr⟩,
+   ⟨cp ++ "LineFormatPlanner.textNode:formatStr", .scratch, some ``Qryn.LogQL.FmtState.formatStr⟩,
+   ⟨cp ++ "MainFinalizerPlanner.Process:Alias", .configDefault, some ``Qryn.C14.finalizerAlias⟩,
+   ⟨cp ++ "PlannerDropSimple.Process:LabelsCache", .memoReset, none⟩,
+   ⟨cp ++ "WithConnectorPlanner.Process:WithCache", .memoReset, some ``Qryn.LogQL.MPlanState.fpCache⟩,
+   ⟨ip ++ "ByWithoutPlanner.Process:labels", .scratch, none⟩,
+   ⟨ip ++ "LineFilterPlanner.Process:re", .scratch, none⟩,
+   ⟨ip ++ "ParserPlanner.Process:logfmtFields", .scratch, none⟩,
+   ⟨ip ++ "ParserPlanner.Process:parameterTypedValues", .scratch, none⟩,
+   ⟨tq ++ "AggregatorPlanner.cmpVal:fCmpVal", .scratch, some ``Qryn.TraceQL.AggState.fCmpVal⟩,
+   ⟨tq ++ "AttrConditionPlanner.Process:alias", .scratch, some ``Qryn.TraceQL.AttrState.alias⟩,
+   ⟨tq ++ "AttrConditionPlanner.Process:isAliased", .flagResetOnExit, some ``Qryn.TraceQL.AttrState.isAliased⟩,
+   ⟨tq ++ "AttrConditionPlanner.getCond:isAliased", .flagResetOnExit, some ``Qryn.TraceQL.AttrState.isAliased⟩,
+   ⟨tq ++ "AttrConditionPlanner.maybeCreateWhere:sqlConds", .scratch, some ``Qryn.TraceQL.AttrState.sqlConds⟩,
+   ⟨tq ++ "AttrConditionPlanner.maybeCreateWhere:where", .scratch, some ``Qryn.TraceQL.AttrState.where_⟩]
+
+/-- **planner_self_writes_pinned.** Executing a prepared plan (`Process`, once per second while tailing, once per
+    portion of a complex trace search) may write to the planner objects themselves only at the sites of the regenerated
+    inventory `Gen.PlannerSelfWrites` (every assignment, `++`, `delete`, address-taking or `range`-assignment whose
+    target is a field of the receiver, inside `Process` or a method of the same receiver reachable from it, for all 99
+    planner types of the LogQL, TraceQL, PromQL and Pyroscope translation packages) — and the classification table
+    `selfWriteClass` covers that inventory EXACTLY, site by site, each with its class and the field of the executable
+    state machines that stands for it. A planner that starts to keep anything else across executions (as
+    `LabelFilterPlanner.MainReq`, the line-filter and `AttrConditionPlanner` accumulators did before their fixes) changes
+    the inventory and fails this obligation; the re-execution and dirty-state streams then search for a query on which
+    an execution differs from a fresh translation. -/
 theorem planner_self_writes_pinned :
-    Qryn.Gen.plannerSelfWrites =
-      ["reader/logql/logql_transpiler_v2/clickhouse_planner.ByWithoutPlanner.processTSTable:LabelsCache",
-       "reader/logql/logql_transpiler_v2/clickhouse_planner.LabelFormatPlanner.makeFormatters:formatters",
-       "reader/logql/logql_transpiler_v2/clickhouse_planner.LabelsJoinPlanner.Process:LabelsCache",
-       "reader/logql/logql_transpiler_v2/clickhouse_planner.LineFormatPlanner.ProcessTpl:args",
-       "reader/logql/logql_transpiler_v2/clickhouse_planner.LineFormatPlanner.ProcessTpl:formatStr",
-       "reader/logql/logql_transpiler_v2/clickhouse_planner.LineFormatPlanner.fieldNode:args",
-       "reader/logql/logql_transpiler_v2/clickhouse_planner.LineFormatPlanner.fieldNode:formatStr",
-       "reader/logql/logql_transpiler_v2/clickhouse_planner.LineFormatPlanner.textNode:formatStr",
-       "reader/logql/logql_transpiler_v2/clickhouse_planner.MainFinalizerPlanner.Process:Alias",
-       "reader/logql/logql_transpiler_v2/clickhouse_planner.PlannerDropSimple.Process:LabelsCache",
-       "reader/logql/logql_transpiler_v2/clickhouse_planner.WithConnectorPlanner.Process:WithCache",
-       "reader/logql/logql_transpiler_v2/internal_planner.ByWithoutPlanner.Process:labels",
-       "reader/logql/logql_transpiler_v2/internal_planner.LineFilterPlanner.Process:re",
-       "reader/logql/logql_transpiler_v2/internal_planner.ParserPlanner.Process:logfmtFields",
-       "reader/logql/logql_transpiler_v2/internal_planner.ParserPlanner.Process:parameterTypedValues",
-       "reader/traceql/transpiler/clickhouse_transpiler.AggregatorPlanner.cmpVal:fCmpVal",
-       "reader/traceql/transpiler/clickhouse_transpiler.AttrConditionPlanner.Process:alias",
-       "reader/traceql/transpiler/clickhouse_transpiler.AttrConditionPlanner.Process:isAliased",
-       "reader/traceql/transpiler/clickhouse_transpiler.AttrConditionPlanner.getCond:isAliased",
-       "reader/traceql/transpiler/clickhouse_transpiler.AttrConditionPlanner.maybeCreateWhere:sqlConds",
-       "reader/traceql/transpiler/clickhouse_transpiler.AttrConditionPlanner.maybeCreateWhere:where"] ∧
-    40 ≤ Qryn.Gen.plannerProcessTypes := by decide
+    Qryn.Gen.plannerSelfWrites = selfWriteClass.map (·.site) ∧ 40 ≤ Qryn.Gen.plannerProcessTypes := by decide
+
+/-- the two self-writing types whose fields have no model (`modelField = none`, class memo) are exactly the ones this
+    build never constructs: `clickhouse_planner.LabelFormatPlanner` and `PlannerDropSimple` are dead code (label_format
+    runs in-process, `planDrop` builds `PlannerDrop`). Constructing one of them changes this regenerated fact. -/
+theorem unmodelled_memo_types_not_constructed :
+    Qryn.Gen.plannerSelfWriteUnconstructed =
+      ["reader/logql/logql_transpiler_v2/clickhouse_planner.LabelFormatPlanner",
+       "reader/logql/logql_transpiler_v2/clickhouse_planner.PlannerDropSimple"] ∧
+    ((selfWriteClass.filter (fun w => w.modelField.isNone && w.cls != .scratch)).map (·.site)) =
+      ["reader/logql/logql_transpiler_v2/clickhouse_planner.LabelFormatPlanner.makeFormatters:formatters",
+       "reader/logql/logql_transpiler_v2/clickhouse_planner.PlannerDropSimple.Process:LabelsCache"] := by decide
+end Qryn.C14
+
+/-! ## TraceQL: the planner objects' own fields as state (`TraceQL/Process.lean`) -/
+namespace Qryn.C14
+open Qryn.TraceQL
+
+/-- **attr_condition_state_independent.** One `AttrConditionPlanner.Process`, for EVERY context — also the contexts
+    of the portions of a complex search (`RandomFilter`, `CachedTraceIds`: the three return paths) — and for every
+    value of the fields `sqlConds`, `where`, `alias` an earlier `Process` (or anything else) left in the object:
+    the result is the pure translation `attrCondition` of C11. The one field that is read before it is assigned,
+    `isAliased`, must be `false` at entry — `attr_condition_resets_flag` shows every path re-establishes that. -/
+theorem attr_condition_state_independent (st : AttrState) (h : st.isAliased = false) (c : TraceQL.Ctx)
+    (terms : List Term) (cond : Cond) (aggAttr : String) :
+    (processAttr st c terms cond aggAttr).2 = attrCondition c terms cond aggAttr :=
+  processAttr_out st h c terms cond aggAttr
+
+/-- every way out of `AttrConditionPlanner.Process` (error in a term; no portion; portion filter; portion filter and
+    cached trace ids) leaves `isAliased = false` -/
+theorem attr_condition_resets_flag (st : AttrState) (h : st.isAliased = false) (c : TraceQL.Ctx)
+    (terms : List Term) (cond : Cond) (aggAttr : String) :
+    (processAttr st c terms cond aggAttr).1.isAliased = false :=
+  processAttr_clean st h c terms cond aggAttr
+
+/-- on the paths that return a statement the flag is reset whatever it was -/
+theorem attr_tail_resets (st : AttrState) (c : TraceQL.Ctx) (res : Sql.Sel) :
+    (attrTail st c res).1.isAliased = false := by rw [attrTail_state]
+
+/-- the three tails are really taken: a context for each -/
+example : portionOf ⟨0, 1, 0, 0, false, "a", "b", "c", "d", 0, 0, []⟩ = .none := by decide
+example : portionOf ⟨0, 1, 0, 0, false, "a", "b", "c", "d", 3, 1, []⟩ = .filter := by decide
+example : portionOf ⟨0, 1, 0, 0, false, "a", "b", "c", "d", 3, 2, ["00"]⟩ = .filterAndCached := by decide
+
+/-- `AggregatorPlanner.Process` never reads the `fCmpVal` an earlier `Process` left -/
+theorem aggregator_state_independent (st : AggState) (pfx : String) (a : Agg) (main : Sql.Sel) :
+    (processAgg st pfx a main).2 = aggregator pfx a main := processAgg_out st pfx a main
+
+/-- **process_stable_traceql.** A prepared TraceQL plan (any tree of `&&`/`||` selectors with aggregators) in a clean
+    state, processed any number of times with any contexts (complex searches: once per portion, each with its own
+    random filter and the trace ids found so far): every result — statement or error — is the pure reading of the
+    plan for ITS context; the objects' fields carry nothing over. -/
+theorem process_stable_traceql (p : PTree) (hp : p.clean) (cs : List TraceQL.Ctx) :
+    runsT p cs = cs.map (fun c => finishPlan c (pureTree c p.shape)) := runsT_eq p hp cs
+
+/-- … and for the plan object `Plan(script)` returns this is `TraceQL.plan` of C11 (`plan_correct` etc. are about it) -/
+theorem process_stable_traceql_plan (script : Script) (p : PTree) (h : prepare script = .ok p) (cs : List TraceQL.Ctx) :
+    runsT p cs = cs.map (fun c => plan c script) := by
+  rw [runsT_eq p (prepare_spec script p h ⟨0, 0, 0, 0, false, "", "", "", "", 0, 0, []⟩).1 cs]
+  apply List.map_congr_left
+  intro c _
+  obtain ⟨_, hs, hpl⟩ := prepare_spec script p h c
+  rw [hs, hpl]
+
+/-- `Process` modifies nothing of the plan but the inventoried fields, and keeps the invariant -/
+theorem traceql_process_invariant (p : PTree) (hp : p.clean) (c : TraceQL.Ctx) :
+    (processPlan p c).1.clean ∧ (processPlan p c).1.shape = p.shape :=
+  ⟨processTree_clean c p hp, processTree_shape c p⟩
+
+/-- what a flag left set does (the state a lost reset produces): the first condition refers to the alias `bsCond`
+    instead of defining it — the statement has no definition of `bsCond` at all -/
+theorem stale_flag_drops_definition (ts : List Sql.Expr) (a : String) (i : Nat) :
+    (condSqlA ts a true (.leaf i)).1 = Sql.neq (.callT "bitAnd" [.raw a, .int (shl1 i)]) (.int 0) ∧
+    (condSqlA ts a false (.leaf i)).1 = Sql.neq (.callT "bitAnd" [.bitSet ts a, .int (shl1 i)]) (.int 0) ∧
+    (condSqlA ts a true (.leaf i)).1 ≠ (condSqlA ts a false (.leaf i)).1 := by
+  refine ⟨rfl, rfl, ?_⟩
+  intro h
+  simp [condSqlA, Sql.neq] at h
+
+/-- what the code did before the `fix:` of `maybeCreateWhere`: a `Process` that failed on the second term left the
+    first one in the planner; the next `Process` of the same plan found the memo non-empty and returned a statement
+    (built from one term, testing bit 1 of a one-bit set) where the first execution — and a fresh translation —
+    return the error -/
+theorem stale_terms_after_error :
+    ∃ (terms : List Term) (cond : Cond) (c : TraceQL.Ctx),
+      (runsAttrOld {} terms cond "" [c, c]).map Except.isOk = [false, true] ∧
+      (attrCondition c terms cond "").isOk = false ∧
+      ((runsT (.simple [(⟨some (.leafOp ⟨".a", .eq, .str [34, 98, 34] (some [98])⟩ .and (.leaf ⟨"foo", .eq, .str [34, 120, 34] (some [120])⟩)), none⟩, .none)] "" {} {}) [c, c]).map
+        Except.isOk = [false, false]) := by
+  refine ⟨[⟨".a", .eq, .str [34, 98, 34] (some [98])⟩, ⟨"foo", .eq, .str [34, 120, 34] (some [120])⟩],
+    .node .and (.leaf 0) (.leaf 1), ⟨0, 1, 0, 0, false, "a", "b", "c", "d", 0, 0, []⟩, ?_, ?_, ?_⟩ <;> decide +kernel
+
+end Qryn.C14
+
+/-! ## metric LogQL: the memo fields `fpCache`, `labelsCache` and the `ctx.Id()` counter as state (`LogQL/ProcessMetric.lean`) -/
+namespace Qryn.C14
+open Qryn Qryn.Sql Qryn.LogQL
+
+/-- the first execution of a fresh metric plan is the translation `planMetric` of C08 -/
+theorem first_execution_metric (c : MCtx) (q : MetricQuery) : (processMetric {} c q).2 = planMetric c q :=
+  metricChainP_fresh c q
+
+/-- **process_stable_metric.** A prepared metric plan — range functions over a selector of the C07 fragment, `unwrap`,
+    `by`/`without` with and without the time-series join, `topk`, comparisons, the metrics_15s shortcut —, whatever
+    `fpCache` and `labelsCache` hold (what earlier executions memoized, or anything else), processed any number of
+    times with any contexts: every statement is exactly `planMetric` for ITS context. The proof follows the memo
+    fields and the `ctx.Id()` counter through every planner of the chain in the order the Go code calls them
+    (`Proofs/ProcessMetric.lean`: `withConnector_ok`, `labelsJoinP_spec`, `byWithoutTSP_ok`, `fold_spec`). -/
+theorem process_stable_metric (st : MPlanState) (q : MetricQuery) (cs : List MCtx) :
+    runsMetric st q cs = cs.map (fun c => planMetric c q) := by
+  induction cs generalizing st with
+  | nil => rfl
+  | cons c cs ih =>
+    simp only [runsMetric, List.map_cons, List.cons.injEq]
+    exact ⟨metricChainP_fresh c q, ih _⟩
+
+/-- inside one execution the planners DO communicate through the memo: after `Process` the fingerprint sub-query is
+    memoized (so `process_stable_metric` is not true because nothing is ever stored) -/
+theorem metric_memo_is_used (c : MCtx) (q : MetricQuery) :
+    ∃ lc, (metricChainP c q ⟨none, none, 0⟩).1.fpCache = some (fpWith c.toCtx q.rangeAgg.sel) ∧
+      (metricChainP c q ⟨none, none, 0⟩).1.labelsCache = lc := ⟨_, by
+  obtain ⟨lc, hs⟩ := steps_spec c q
+  have hi := mapP_spec c q (stepFixSel c q.rangeAgg.durNs) hs
+  unfold metricChainP
+  cases hm : matrixLabels q with
+  | true =>
+    have := mapP_spec c q finalizeMatrix hi ⟨none, none, 0⟩ (Or.inl ⟨rfl, rfl⟩) rfl
+    simp only [if_true]
+    rw [this]
+  | false =>
+    have := mapP_spec c q finalizeMatrix (labelsJoinP_spec c q false hi) ⟨none, none, 0⟩ (Or.inl ⟨rfl, rfl⟩) rfl
+    simp only [Bool.false_eq_true, if_false]
+    rw [this], rfl⟩
+
+/-- what the code did before `cacheResetPlanner` existed: from the second execution on `ByWithoutPlanner.processTSTable`
+    found its own `labels_1` of the previous execution in the memo and defined the new `labels_1` as a filter over
+    `labels_1` — a sub-query selecting from itself; the fresh translation never does -/
+theorem stale_labels_self_reference :
+    ∃ (q : MetricQuery) (c : MCtx),
+      (runsMetricNoReset {} q [c, c]).map selfRefWith = [false, true] ∧
+      (runsMetric {} q [c, c]).map selfRefWith = [false, false] ∧ selfRefWith (planMetric c q) = false := by
+  refine ⟨.agg ⟨.sum, some ⟨true, ["a"]⟩, ⟨.lra .countOverTime, ⟨[⟨[97], .eq, [98]⟩], []⟩, 7000000000, none, none, none⟩, none, none⟩,
+    ⟨⟨1700000000000000000, 1700000300000000000, 0, false, 1, false, "g", "s", "t", "t"⟩, 5000000000, "m"⟩, ?_, ?_, ?_⟩ <;>
+    decide +kernel
+
+end Qryn.C14
+
+/-! ## `LineFormatPlanner`: the accumulated `format(...)` call (`LogQL/ProcessFormat.lean`) -/
+namespace Qryn.C14
+open Qryn Qryn.Sql Qryn.LogQL
+
+/-- the walk numbers the placeholders from the number of arguments it starts with and appends to what it starts with -/
+theorem tpl_walk (nodes : List TplNode) (st : FmtState) :
+    nodes.foldl nodeStep st = ⟨st.formatStr ++ fmtText st.args.length nodes, st.args ++ fmtArgs nodes⟩ := by
+  induction nodes generalizing st with
+  | nil => simp [fmtText, fmtArgs]
+  | cons n rest ih =>
+    cases n with
+    | text s => simp [List.foldl_cons, nodeStep, ih, fmtText, fmtArgs, List.append_assoc]
+    | field name => simp [List.foldl_cons, nodeStep, ih, fmtText, fmtArgs, List.append_assoc]
+
+/-- **processTpl_state_independent.** `ProcessTpl` from ANY values of `formatStr` / `args`: success or failure and the
+    `format(...)` call are those of a fresh planner — and that call is a function of the template alone. -/
+theorem processTpl_state_independent (st : FmtState) (tpl : Option (List TplNode)) :
+    (processTpl st tpl).2 = (processTpl {} tpl).2 ∧
+    ((processTpl st tpl).2 = true → (processTpl st tpl).1.out = (processTpl {} tpl).1.out) ∧
+    (∀ nodes, tpl = some nodes → (processTpl st tpl).1.out = (fmtText 0 nodes, fmtArgs nodes)) := by
+  cases tpl with
+  | none => exact ⟨rfl, ⟨fun h => by simp [processTpl] at h, fun _ h => by cases h⟩⟩
+  | some nodes =>
+    refine ⟨rfl, fun _ => rfl, fun n h => ?_⟩
+    cases h
+    simp [processTpl, tpl_walk, FmtState.out]
+
+/-- any number of `ProcessTpl` calls on one planner object, from any state: always the same call -/
+theorem processTpl_stable (nodes : List TplNode) (n : Nat) (st : FmtState) :
+    runsTpl processTpl st (some nodes) n = List.replicate n (some (fmtText 0 nodes, fmtArgs nodes)) := by
+  induction n generalizing st with
+  | zero => rfl
+  | succ n ih =>
+    simp only [runsTpl, List.replicate_succ, List.cons.injEq]
+    exact ⟨by simp [processTpl, tpl_walk, FmtState.out], ih _⟩
+
+/-- what the code did before the `fix:` (no reset): the second execution appended the template again, its
+    placeholders numbered after the first execution's arguments -/
+theorem stale_format_accumulates (nodes : List TplNode) :
+    (processTplOld (processTplOld {} (some nodes)).1 (some nodes)).1.out =
+      (fmtText 0 nodes ++ fmtText (fmtArgs nodes).length nodes, fmtArgs nodes ++ fmtArgs nodes) := by
+  simp [processTplOld, tpl_walk, FmtState.out]
+
+/-- … for `{{.a}}`: `format('{0}{1}', labels['a'], labels['a'])` instead of `format('{0}', labels['a'])` -/
+theorem stale_format_differs :
+    runsTpl processTplOld {} (some [.field [97]]) 2 = [some ([123, 48, 125], [[97]]), some ([123, 48, 125, 123, 49, 125], [[97], [97]])] ∧
+    runsTpl processTpl {} (some [.field [97]]) 2 = [some ([123, 48, 125], [[97]]), some ([123, 48, 125], [[97]])] := by
+  decide +kernel
+end Qryn.C14
+
+/-! ## determinism: a translation is a function of (query, context) -/
+namespace Qryn.C14
+open Qryn Qryn.Sql Qryn.LogQL
+
+/-- **translate_pure (all three model planners).** What an execution returns does not depend on the history of the plan
+    object: two plan objects of the same query in ANY two states (reached by any earlier executions, or never
+    executed), given the same context, return the same statement. In Lean the model planners are functions, so
+    "deterministic" is this independence from the only other input they have — the object state. Transfer to the
+    code: the real planners have two more potential inputs, package-level variables and other objects' fields;
+    `planner_globals_immutable` (regenerated: the translation packages hold no assignable package-level state) and
+    `planner_self_writes_pinned` (regenerated: `Process` writes only receiver fields, each classified here) exclude
+    them; the `concurrent`, `reexec-*` and `retranslate-api` streams test exactly this on real objects. -/
+theorem translation_history_independent :
+    (∀ (st st' : PlanState) (c : LogQL.Ctx) (q : LogQuery), (process st c q).2 = (process st' c q).2) ∧
+    (∀ (st st' : MPlanState) (c : MCtx) (q : MetricQuery), (processMetric st c q).2 = (processMetric st' c q).2) ∧
+    (∀ (p p' : TraceQL.PTree) (c : TraceQL.Ctx), p.clean → p'.clean → p.shape = p'.shape →
+        (TraceQL.processPlan p c).2 = (TraceQL.processPlan p' c).2) := by
+  refine ⟨fun _ _ _ _ => rfl, fun _ _ _ _ => rfl, fun p p' c hp hp' hs => ?_⟩
+  have h1 := TraceQL.runsT_eq p hp [c]
+  have h2 := TraceQL.runsT_eq p' hp' [c]
+  simp only [TraceQL.runsT, List.map_cons, List.map_nil, List.cons.injEq, and_true] at h1 h2
+  rw [h1, h2, hs]
+
+/-- full statement for metric queries: every re-executed statement evaluates (SQL semantics of C08, `Sql.SemAgg`) to
+    the direct reading `evalMetric` of the query for the window of its own context. C08 proves this stage by stage and
+    SEARCHES it for whole plans (`sem` stream); it is not a theorem there, hence not here. -/
+def reexecution_same_meaning_metric_full : Prop :=
+  ∀ (o : Oracles) (d : LokiDb) (st : MPlanState) (c : MCtx) (q : MetricQuery),
+    (evalSelA o (d.toDbM c) (processMetric st c q).2).map normRow = evalMetric o c d q
+
+/-- **reexecution_same_meaning_metric_partial.** Proved part: under the SQL semantics every re-executed statement
+    means what the FRESH translation for its context means — on every database, from every memo state; whatever C08
+    establishes (or finds) about `planMetric c q` holds verbatim for the k-th execution. Missing for the full
+    statement: `evalSelA (planMetric c q) = evalMetric c q` for whole plans (C08: proved per stage, searched per plan). -/
+theorem reexecution_same_meaning_metric_partial (o : Oracles) (db : Db) (st : MPlanState) (c : MCtx) (q : MetricQuery) :
+    evalSelA o db (processMetric st c q).2 = evalSelA o db (planMetric c q) ∧
+    (∀ P : Sel → Prop, P (planMetric c q) → P (processMetric st c q).2) := by
+  have h : (processMetric st c q).2 = planMetric c q := metricChainP_fresh c q
+  exact ⟨by rw [h], fun P hp => by rw [h]; exact hp⟩
+
+/-- the same for TraceQL, where C11 has the whole-plan theorems about `TraceQL.plan`: the k-th execution of the plan
+    object of `script` IS `plan c script` -/
+theorem reexecution_same_meaning_traceql (script : TraceQL.Script) (p : TraceQL.PTree) (h : TraceQL.prepare script = .ok p)
+    (cs : List TraceQL.Ctx) (i : Nat) (hi : i < cs.length) :
+    (TraceQL.runsT p cs)[i]? = some (TraceQL.plan cs[i] script) := by
+  rw [process_stable_traceql_plan script p h cs]
+  simp [hi]
 end Qryn.C14
